@@ -281,6 +281,7 @@ fn find_fault(st: &mut SysState, path: usize, op: Op, index: u64) -> Option<Faul
                 FaultAction::Short(_) => "fault:ShortWrite",
                 FaultAction::PartialThenErrno(..) => "fault:PartialWriteThenErrno",
                 FaultAction::Eintr => "fault:Eintr",
+                FaultAction::Crash(_) if op == Op::Truncate => "fault:CrashAtResize",
                 FaultAction::Crash(usize::MAX) => "fault:CrashAfterWrite",
                 FaultAction::Crash(0) => "fault:CrashBeforeWrite",
                 FaultAction::Crash(_) => "fault:CrashTornWrite",
@@ -627,10 +628,20 @@ pub unsafe extern "C" fn ftruncate64(fd: c_int, length: off64_t) -> c_int {
                 set_errno(libc::EINVAL);
                 return -1;
             }
-            if let Some(FaultAction::Errno(e)) = find_fault(st, id, Op::Truncate, 0) {
-                push_event(st, SysEvent { op: Op::Truncate, path: id, fd, a: length, b: 0, ret: -1, errno: e, data: None });
-                set_errno(e);
-                return -1;
+            match find_fault(st, id, Op::Truncate, 0) {
+                Some(FaultAction::Errno(e)) => {
+                    push_event(st, SysEvent { op: Op::Truncate, path: id, fd, a: length, b: 0, ret: -1, errno: e, data: None });
+                    set_errno(e);
+                    return -1;
+                }
+                Some(FaultAction::Crash(_)) => {
+                    // process death between the last write and the resize
+                    push_event(st, SysEvent { op: Op::Truncate, path: id, fd, a: length, b: 0, ret: -1, errno: libc::EIO, data: None });
+                    crash_now(st);
+                    set_errno(libc::EIO);
+                    return -1;
+                }
+                _ => {}
             }
             let r = libc::syscall(libc::SYS_ftruncate, fd as c_long, length) as c_int;
             let errno = if r < 0 { get_errno() } else { 0 };
